@@ -171,6 +171,10 @@ def obligations(tier):
             for i in range(n_iter):
                 obs.append(val_step(cfgs[2], n_iter, i, 2))
     obs.append(val_step(cfgs[1], 3, 2, 2))
+    # progress printing is an effect only: with verbose=True and a printing period (2) that is not the validation period
+    # (3) the module is still invoked exactly at the iterations divisible by its own period
+    for i in (1, 2, 3, 4):
+        obs.append(val_step(dict(cfgs[0], verbose=True), 5, i, 3))
     # a module whose successor has another period (warm-up schedules): the carried module's period decides
     obs.append(val_step(cfgs[0], 5, 3, 2, k_carry=3))
     obs.append(val_step(cfgs[0], 5, 4, 2, k_carry=3))
